@@ -532,6 +532,33 @@ fn reopen_store(r: &Restart, dir: &Path, st: &mut RestartStats, fails: &mut Vec<
     }
 }
 
+/// Item files under a cache root whose name (range, length, crc) fits their content and that are not larger than the
+/// capacity (the scan leaves a file longer than the whole capacity alone).
+fn complete_cache_item_files(root: &Path, capacity: u64) -> usize {
+    use base64::Engine;
+    let mut n = 0;
+    let rd = |p: &Path| std::fs::read_dir(p).map(|r| r.filter_map(|e| e.ok()).map(|e| e.path()).collect::<Vec<_>>()).unwrap_or_default();
+    for pre in rd(root) {
+        for keydir in rd(&pre) {
+            for f in rd(&keydir) {
+                let Some(name) = f.file_name().map(|x| x.to_string_lossy().to_string()) else { continue };
+                let Ok(raw) = base64::engine::general_purpose::URL_SAFE.decode(name.as_bytes()) else { continue };
+                if raw.len() != 20 {
+                    continue;
+                }
+                let len = u64::from_le_bytes(raw[8..16].try_into().unwrap());
+                let crc = u32::from_le_bytes(raw[16..20].try_into().unwrap());
+                if let Ok(bytes) = std::fs::read(&f) {
+                    if bytes.len() as u64 == len && len <= capacity && crc32fast::hash(&bytes) == crc {
+                        n += 1;
+                    }
+                }
+            }
+        }
+    }
+    n
+}
+
 fn reopen_cache(r: &Restart, dir: &Path, st: &mut RestartStats, fails: &mut Vec<Fail>, after_rerun: bool) {
     let kind = r.op.kind();
     let cfg = CacheConfig {
@@ -570,6 +597,21 @@ fn reopen_cache(r: &Restart, dir: &Path, st: &mut RestartStats, fails: &mut Vec<
                     }
                 },
                 Err(e2) => v.push(("C19/cache-get-error".into(), format!("get(key {k}, [{s},{e})) on the re-opened cache -> {e2:?}"))),
+            }
+        }
+        // every complete item file that the re-opened cache leaves on disk belongs to a tracked entry: a file
+        // that is neither tracked nor cleaned up is a record lost to the cache and space it never gives back
+        // (files longer than the whole capacity are not counted; a stop inside one put leaves at most the capacity
+        // plus one item on disk)
+        if !after_rerun {
+            let on_disk = complete_cache_item_files(dir, cache_capacity(r.ctx.param));
+            match c.num_items() {
+                Ok(n) if n < on_disk => v.push((
+                    format!("C19/record-lost:{kind}"),
+                    format!("the re-opened cache tracks {n} items but {on_disk} complete item files are on disk: files left behind untracked"),
+                )),
+                Ok(_) => st.cache_gets += 0,
+                Err(e2) => v.push(("C19/cache-get-error".into(), format!("num_items on the re-opened cache -> {e2:?}"))),
             }
         }
         if after_rerun && r.ctx.param == 0 {
